@@ -419,7 +419,8 @@ class NativeSpec:
                                                        self._is_twin(d[x], was[x])) for x in keys)
             if nm == "fresh":
                 v = self.ev(n.args[0], env)
-                return not any(v is t for t in self.memo_originals())
+                # every object of the entry state was deep-copied for the pre-state snapshot: the memo knows them all
+                return id(v) not in self.memo
             if nm == "bit":
                 return (int(self.ev(n.args[0], env)) >> self.ev(n.args[1], env)) & 1
             if nm == "valid_mask":
